@@ -14,6 +14,9 @@ RULES = {
              "msg.channel, data: to_json_binary(Ics20Packet{amount, denom, sender, receiver: msg.remote_address, memo: msg.memo}), "
              "timeout: env.block.time.plus_seconds(msg.timeout or CONFIG.default_timeout)} whose amount/denom are the ones "
              "escrowed, sender the true initiator, guarded by amount <= u64::MAX",
+    "R12.6": "a failed payout is undone exactly (shared with C11 R11.4 / R11.6): the receive path stores REPLY_ARGS = the (channel, denom, "
+             "amount) it reduced, the payout replies on error with the id on which `reply` adds exactly those back to `outstanding`, "
+             "and no other sub-message uses that id - so the error acknowledgement produced by `reply` also leaves the books as before",
     "R12.5": "accounting step: per entry point the channel-state deltas are: transfer +A outstanding and +A total_sent; "
              "receive -A outstanding; error-ack / timeout -A outstanding; reply-undo +A outstanding only; success-ack none",
 }
@@ -127,6 +130,14 @@ def run(ctx):
         if name not in expect and name != "ack/Result":
             ctx.ob("R12.5", "unexpected writer %s" % name, False, detail="%s writes channel state" % name)
     check_packets(ctx, ex, it)
+    from . import C11
+    sub = type(ctx)(ctx.pid, ctx.facts, ctx.engine, ctx.tier, ctx.tree_hash)
+    C11.run(sub)
+    for k in sub.order:
+        o = sub.obs[k]
+        if o.rule in ("R11.4", "R11.6") and not o.key.startswith(("anchor", "floor")):
+            ctx.ob("R12.6", o.key, True if o.status == "discharged" else (None if o.status == "undecided" else False),
+                   detail="; ".join(o.details), sites=o.sites, sample=o.sample)
 
 
 def check_packets(ctx, ex, it):
